@@ -43,7 +43,7 @@ PROPS = {
         kani=[],
     ),
     'C17': dict(
-        units=[('reader', r'(C04\.last_frame_closed_at_end_of_stream)'), ('event', r'(frame_close|C04\.closed_frame_is_level|C04\.every_column_one_entry_per_row)'),
+        units=[('reader', r'(C04\.last_frame_closed_at_end_of_stream|C01\.duplicate_game_end|C01\.no_event_parsed|C01\.tail_content)'), ('event', r'(frame_close|C04\.closed_frame_is_level|C04\.every_column_one_entry_per_row)'),
                ('ser', r'(raw_size|frame_counts|gecko_codes_size|gecko_codes$|payload_sizes|PayloadSizes|lemma_|emit_len|C17|Frame::write|::write$|Frame::len|C01\.payload_table|C01\.file_layout|C01\.frames_canonical_order|C01\.gecko_blocks)')],
         kani=[],
     ),
